@@ -53,6 +53,11 @@ def gen_options(cls: str, rng) -> Dict[str, Any]:
             o.update(inplace=True, __reject__=True)
     elif cls in ("Linear", "LinearReadout"):
         fi, fo = rng.sample([2, 3, 5, 7, 11], 2)
+        r = rng.random()
+        if r < 0.1:
+            fo = fi  # square
+        elif r < 0.2:
+            fi, fo = rng.choice([(1, fo), (fi, 1), (1, 1)])  # a single input / output feature
         o = {"in_features": fi, "out_features": fo, "bias": rng.random() < 0.5, "constraint": rng.choice(BINARY)}
     elif cls == "Conv1d":
         groups = rng.choice([1, 1, 2, 3])
@@ -63,15 +68,15 @@ def gen_options(cls: str, rng) -> Dict[str, Any]:
         if rng.random() < 0.06:
             o.update(padding="same", stride=1, __reject__=True)
     elif cls == "LayerNorm":
-        o = {"normalized_shape": rng.choice([[7], [3, 5], 6]), "eps": rng.choice([1e-5, 1e-3, 0.1]), "elementwise_affine": rng.random() < 0.6,
+        o = {"normalized_shape": rng.choice([[7], [3, 5], 6, [7], [3, 5], 6, [1], [2]]), "eps": rng.choice([1e-5, 1e-3, 0.1]), "elementwise_affine": rng.random() < 0.6,
              "bias": rng.random() < 0.6}
     elif cls == "RMSNorm":
-        o = {"normalized_shape": rng.choice([7, 6, (3, 5)]), "eps": rng.choice([1e-5, 1e-3, 0.1]), "elementwise_affine": rng.random() < 0.6}
+        o = {"normalized_shape": rng.choice([7, 6, (3, 5), 7, 6, (3, 5), 1, 2]), "eps": rng.choice([1e-5, 1e-3, 0.1]), "elementwise_affine": rng.random() < 0.6}
         if isinstance(o["normalized_shape"], tuple):
             o["normalized_shape"] = list(o["normalized_shape"])
             o["__tuple__"] = True
     elif cls == "Embedding":
-        V = rng.choice([7, 11, 13])
+        V = rng.choice([7, 11, 13, 7, 11, 13, 1, 2])
         o = {"num_embeddings": V, "embedding_dim": rng.choice([3, 4, 5]), "padding_idx": rng.choice([None, None, 0, V - 1, -1]),
              "max_norm": rng.choice([None, None, 0.7, 2.0]), "norm_type": rng.choice([2.0, 2.0, 1.0])}
         r = rng.random()
@@ -91,10 +96,10 @@ def gen_options(cls: str, rng) -> Dict[str, Any]:
         elif r < 0.18:
             o.update(size_average=False, __reject__=True)
     elif cls == "MLP":
-        o = {"hidden_size": rng.choice([4, 6, 8]), "expansion_factor": rng.choice([1, 2, 4])}
+        o = {"hidden_size": rng.choice([4, 6, 8, 1]), "expansion_factor": rng.choice([1, 2, 4])}
     elif cls == "MHSA":
         heads = rng.choice([1, 2, 4])
-        o = {"hidden_size": heads * rng.choice([2, 3, 4]), "heads": heads, "is_causal": rng.random() < 0.5, "dropout_p": rng.choice([0.0, 0.0, 0.2]),
+        o = {"hidden_size": heads * rng.choice([2, 3, 4, 1]), "heads": heads, "is_causal": rng.random() < 0.5, "dropout_p": rng.choice([0.0, 0.0, 0.2]),
              "mult": _mult(rng)}
     elif cls == "TransformerLayer":
         heads = rng.choice([1, 2])
